@@ -76,10 +76,10 @@ func (a kset) list() []string {
 type K9 struct {
 	c          *Ctx
 	Kinds      []MirrorKind
-	Commit     []string          // calls whose good edge commits the batch (kills all dirt)
+	Commit     []string               // calls whose good edge commits the batch (kills all dirt)
 	canFail    map[*ssa.Function]bool // summarised function has a feasible failing exit (least fixpoint)
 	sawFail    bool
-	FailGuard  func(Cond) bool // a guard of a deferred closure that holds exactly at the operation's failure exits
+	FailGuard  func(Cond) bool   // a guard of a deferred closure that holds exactly at the operation's failure exits
 	Infallible map[string]string // callee spec -> reason: its failing edge is infeasible for the values passed
 	FailMarker func(fn *ssa.Function, ret *ssa.Return) (isFail bool, known bool)
 	fns        []*ssa.Function
